@@ -5,7 +5,7 @@ coq/theories/Gen/TabOctree.v.
 
   OcTreeLeaf  { red_acc, green_acc, blue_acc, color_count, index }  and the casts in from_rgba / `+= RGBA`
   OcTreeInfo  { leaf_count, color_count, min_color_count: Option<_> }
-  ColorError  ([f32; 3])          KDNode.color [u8; 3], fn dist -> i32 with `as i32` operands
+  ColorError  ([f32; 3])          KDNode.color [u8; 3], KDNode.color_index usize, fn dist -> i32 with `as i32` operands
   Rnd { state: u32 }
 
 Only TYPES are extracted (struct fields by name, whatever the layout, comments or attributes; function
@@ -89,6 +89,12 @@ def generate(repo, gen_dir):
     if not m:
         raise TranslateError("KDNode.color is no longer an array of three")
     kd_color = m.group(1)
+    # the palette index a node carries (types only): the field, and every cast an index goes through on its way into
+    # or out of it (`index as T`, `color_index as T`); the narrowest of them bounds the palette length that survives
+    kd_index_ty = need(kd, "color_index", "KDNode")
+    kd_index = bits(kd_index_ty, "KDNode.color_index")
+    for ty in re.findall(r"\b(?:color_)?index\s+as\s+([A-Za-z0-9_]+)", img):
+        kd_index = min(kd_index, bits(ty, "cast of a palette index"))
     m = re.search(r"fn\s+dist\s*\(\s*rgb\s*:[^)]*KDNode[^)]*\)\s*->\s*([A-Za-z0-9_]+)", img)
     if not m:
         raise TranslateError("cannot find the k-d tree's fn dist(rgb, node) -> _")
@@ -113,6 +119,8 @@ def generate(repo, gen_dir):
     s += "(* KDNode.color: [%s; 3]; fn dist -> %s *)\n" % (kd_color, dist_ty)
     s += "Definition kd_color_bits : N := %d.\n" % bits(kd_color, "KDNode.color")
     s += "Definition kd_dist_bits : N := %d.\n" % bits(dist_ty, "dist")
+    s += "(* KDNode.color_index: %s (narrowest of the field and the casts of an index) *)\n" % kd_index_ty
+    s += "Definition kd_index_bits : N := %d.\n" % kd_index
     s += "(* Rnd { state: %s }; ColorError([%s; 3]) *)\n" % (rnd_ty, err_ty)
     s += "Definition rnd_state_bits : N := %d.\n" % bits(rnd_ty, "Rnd.state")
     s += "Definition color_error_significand_bits : N := %d.\n" % FLOAT_SIGNIFICAND[err_ty]
